@@ -17,6 +17,7 @@ import PtProofs.EinsumLowerLemmas
 import PtProofs.AdvIndexLemmas
 import PtProofs.BinopLemmas
 import PtProofs.ReduceLemmas
+import PtProofs.ConstructLemmas
 import PtGen.ApiNames
 namespace Pt
 
@@ -377,6 +378,79 @@ theorem reduce_no_axes (op : RedOp) (shape : Shape) :
     exact hb.2
   simp [this]
 
+/-! ## the array API: constructors (`full / zeros / ones`, `eye`, `arange`) and the CSR product -/
+
+/-- `pt.full(shape, fill, dtype)` (hence `zeros`, `ones`): the literal the API puts
+    into the index lambda is, at every index, numerically the fill value converted
+    to the dtype (`Val.cast`: truncation toward zero into integers, truthiness into
+    `bool`); for integer and `bool` dtypes it is that value exactly. -/
+theorem full_sound (shape s' : Shape) (dt : String) (fill e : SExpr)
+    (binds : List (String × Arr Val)) (i : Idx)
+    (h : Lower.full shape dt fill = some (s', e)) :
+    s' = (Spec.fullV shape dt fill).shape
+    ∧ Val.sameNum (eval (idxEnv i binds) e) ((Spec.fullV shape dt fill).get i)
+    ∧ (dt = "bool" ∨ Lower.isIntDtype dt = true →
+        eval (idxEnv i binds) e = (Spec.fullV shape dt fill).get i) := by
+  unfold Lower.full at h
+  cases hl : Lower.fullLit dt fill with
+  | none => rw [hl] at h; simp at h
+  | some e' =>
+    rw [hl] at h
+    simp only [Option.map_some, Option.some.injEq, Prod.mk.injEq] at h
+    obtain ⟨hs, he⟩ := h
+    subst hs he
+    exact ⟨rfl, fullLit_eval dt fill e' _ hl⟩
+
+/-- `pt.eye(N, M, k)`: `If((_1 - _0) == k, 1, 0)` is 1 exactly on the `k`-th diagonal
+    (`column = row + k`, any sign of `k`), 0 elsewhere -/
+theorem eye_sound (n m : Nat) (k : Int) (binds : List (String × Arr Val)) (i : Idx)
+    (hi : inB (Lower.eye n m k).1 i = true) :
+    eval (idxEnv i binds) (Lower.eye n m k).2 = (Spec.eyeV n m k).get i
+    ∧ ∀ r c : Nat, (Spec.eyeV n m k).get [r, c] = if (c : Int) = r + k then .i 1 else .i 0 :=
+  ⟨eyeExpr_eval n m k binds i hi, eyeV_get n m k⟩
+
+/-- the length `pt.arange` computes, `max(0, ⌈(stop - start)/step⌉)` (NumPy's formula),
+    counts exactly the points `start + j·step` lying strictly before `stop` in the
+    direction of the step — for positive and negative steps, and 0 when there is none -/
+theorem arange_len (start stop step : ℚ) :
+    (Lower.arangeLen start stop step : Int) = max 0 ⌈(stop - start) / step⌉
+    ∧ (step ≠ 0 → ∀ j : Nat, j < Lower.arangeLen start stop step ↔
+        (0 < step ∧ start + j * step < stop) ∨ (step < 0 ∧ stop < start + j * step)) :=
+  ⟨arangeLen_eq_ceil start stop step, fun hs j => arangeLen_lt_iff start stop step hs j⟩
+
+/-- `pt.arange(start, stop, step, dtype)`: entry `j` of `start + _0 * step` is
+    `start + j·step` (an integer for an integer dtype) and the shape is `arange_len` -/
+theorem arange_sound (isInt : Bool) (start stop step : ℚ) (shape : Shape) (e : SExpr)
+    (binds : List (String × Arr Val)) (i : Idx)
+    (h : Lower.arange isInt start stop step = some (shape, e)) (hi : inB shape i = true) :
+    shape = [Lower.arangeLen start stop step]
+    ∧ eval (idxEnv i binds) e = (Spec.arangeV isInt start stop step).get i
+    ∧ (Spec.arangeV isInt start stop step).get i
+        = (if isInt then .i (start.num + (i.getD 0 0 : Nat) * step.num)
+           else .q (start + (i.getD 0 0 : Nat) * step)) :=
+  ⟨(arange_eval isInt start stop step shape e binds i h hi).1,
+   (arange_eval isInt start stop step shape e binds i h hi).2, rfl⟩
+
+/-- `make_csr_matrix((nrows, ncols), elem_values, elem_col_indices, row_starts) @ b`:
+    under CSR well-formedness (`CsrOK`: the shapes `make_csr_matrix` checks;
+    `row_starts` integers delimiting positions within `0 … nnz`; column indices
+    within `0 … ncols`; numeric entries) the lowered `Reduce` with DATA-DEPENDENT
+    bounds `row_starts[_0] ≤ _r0 < row_starts[_0+1]` equals, at every in-bounds
+    index, the product of the DENSE matrix the triple denotes (`Spec.csrDense`,
+    duplicates add up) with `b` — any rank of `b`, any number of stored entries
+    per row (also none), columns in any order. -/
+theorem csr_matmul_sound {nrows ncols nnz : Nat} {ev ec rs b : Arr Val}
+    {R : Nat → Int} {C : Nat → Nat} {E : Nat → ℚ} {B : Idx → ℚ}
+    (h : CsrOK nrows ncols nnz ev ec rs b R C E B) {binds : List (String × Arr Val)}
+    (hb : CsrBinds binds ev ec rs b) :
+    ∃ e, Lower.csrMatmul nrows ncols ev.shape ec.shape rs.shape b.shape
+        = some ((Spec.csrMatmulV nrows ncols ev ec rs b).shape, e)
+      ∧ ∀ i, inB (Spec.csrMatmulV nrows ncols ev ec rs b).shape i = true →
+          Val.sameNum (eval (idxEnv i binds) e) ((Spec.csrMatmulV nrows ncols ev ec rs b).get i)
+          ∧ (eval (idxEnv i binds) e).toRat? ≠ none := by
+  refine ⟨Lower.csrExpr b.shape.length, ?_, fun i hi => csrExpr_sound h hb i hi⟩
+  simp [Lower.csrMatmul, h.evS, h.ecS, h.rsS, h.bS, Spec.csrMatmulV]
+
 /-! ### every API function emits the operation of its own name
 
 The INTENDED table, written by hand — this is the specification:
@@ -613,5 +687,40 @@ example : Lower.reduceExpr .sum [2, 3] (some [1])
     = some (.reduce .sum "_r0" (.int 0) (.int 3) (.sub "in" [.idx 0, .var "_r0"])) := by rfl
 example : Lower.reduceExpr .max [2, 0] (some [1]) = none ∧ Lower.reduceExpr .sum [2, 0] (some [1]) ≠ none
     ∧ Lower.reduceExpr .sum [2, 3] (some [2]) = none := by decide +kernel
+
+-- constructors: full(2.5 -> int64) truncates, ones(float64) = 1.0, eye(2,3,1), arange(10,1,-3), arange(0,1,0.25)
+example : (Lower.full [2] "int64" (.rat (-5) 2)).map (fun p => (p.1, (evalIL p.2 p.1 []).toList))
+      = some ([2], [.i (-2), .i (-2)])
+    ∧ (Lower.ones [2] "float64").map (fun p => (p.1, (evalIL p.2 p.1 []).toList)) = some ([2], [.q 1, .q 1])
+    ∧ (Lower.full [] "bool" (.int 3)).map (fun p => (p.1, (evalIL p.2 p.1 []).toList)) = some ([], [.b true])
+    ∧ (Spec.fullV [2] "int64" (.rat (-5) 2)).toList = [.i (-2), .i (-2)]
+    ∧ (Lower.full [2] "int64" .nan).isNone = true := by decide +kernel
+example : (evalIL (Lower.eye 2 3 1).2 (Lower.eye 2 3 1).1 []).toList = [.i 0, .i 1, .i 0, .i 0, .i 0, .i 1]
+    ∧ (Spec.eyeV 2 3 1).toList = [.i 0, .i 1, .i 0, .i 0, .i 0, .i 1] := by decide +kernel
+example : (Lower.arange true 10 1 (-3)).map (fun p => (p.1, (evalIL p.2 p.1 []).toList))
+      = some ([3], [.i 10, .i 7, .i 4])
+    ∧ (Lower.arange false 0 1 (1/4)).map (fun p => (p.1, (evalIL p.2 p.1 []).toList))
+      = some ([4], [.q 0, .q (1/4), .q (1/2), .q (3/4)])
+    ∧ Lower.arangeLen 5 0 1 = 0 ∧ Lower.arangeLen 0 5 2 = 3 ∧ Lower.arangeLen 0 (-5) (-2) = 3
+    ∧ (Lower.arange true 0 5 0).isNone = true := by decide +kernel
+-- CSR: [[5,0,6],[0,7,0]] stored as values (5 6 7), columns (0 2 1), row starts (0 2 3); b is 3x2
+def exCsrV : Arr Val := ⟨[3], fun p => .i ((p.getD 0 0 : Nat) + 5)⟩
+def exCsrCol (p : Nat) : Nat := match p with | 0 => 0 | 1 => 2 | _ => 1
+def exCsrC : Arr Val := ⟨[3], fun p => .i (exCsrCol (p.getD 0 0) : Nat)⟩
+def exCsrRow (r : Nat) : Int := match r with | 0 => 0 | 1 => 2 | _ => 3
+def exCsrR : Arr Val := ⟨[3], fun r => .i (exCsrRow (r.getD 0 0))⟩
+def exCsrB : Arr Val := ⟨[3, 2], fun j => .i ((2 * j.getD 0 0 + j.getD 1 0 + 1 : Nat))⟩
+def exCsrBinds : List (String × Arr Val) :=
+  [("_in0", exCsrV), ("_in1", exCsrC), ("_in2", exCsrR), ("_in3", exCsrB)]
+example : CsrOK 2 3 3 exCsrV exCsrC exCsrR exCsrB exCsrRow exCsrCol (fun p => (p : ℚ) + 5)
+    (fun j => ((2 * j.getD 0 0 + j.getD 1 0 + 1 : Nat) : ℚ)) :=
+  ⟨rfl, rfl, rfl, rfl, fun _ _ => rfl, by decide, by decide, by decide,
+   fun p _ => by simp [exCsrV, Val.toRat?], fun j _ => by simp [exCsrB, Val.toRat?]⟩
+example : CsrBinds exCsrBinds exCsrV exCsrC exCsrR exCsrB := ⟨rfl, rfl, rfl, rfl⟩
+example : (Lower.csrMatmul 2 3 [3] [3] [3] [3, 2]).map (fun p => (p.1, (evalIL p.2 p.1 exCsrBinds).toList))
+      = some ([2, 2], [.i 35, .i 46, .i 21, .i 28])
+    ∧ (Spec.csrMatmulV 2 3 exCsrV exCsrC exCsrR exCsrB).toList = [.i 35, .i 46, .i 21, .i 28]
+    ∧ (Spec.csrDense 2 3 exCsrV exCsrC exCsrR).toList = [.i 5, .i 0, .i 6, .i 0, .i 7, .i 0]
+    ∧ (Lower.csrMatmul 2 3 [3] [3] [2] [3, 2]).isNone = true := by decide +kernel
 
 end Pt
